@@ -23,7 +23,7 @@ PROPS = {
                 GEN + "C01 histories use only equality-respecting cutoffs and pure map_with_old machines (the property's proviso); "
                 "non-trivial = distinct history with at least two successful observer reads and one node function invocation",
                 c01_safe=True),
-    "C02": spec(["IncrVerif.Props.C02", "IncrVerif.Props.C03Order", "IncrVerif.Props.C01Global", "IncrVerif.Props.C01History", "IncrVerif.Props.C03Nested", "IncrVerif.Props.C17History"], [("bind", 0.5), ("general", 0.3), ("static", 0.2)], ["api", "ev", "read"],
+    "C02": spec(["IncrVerif.Props.C02", "IncrVerif.Props.C03Order", "IncrVerif.Props.C01Global", "IncrVerif.Props.C01History", "IncrVerif.Props.C03Nested", "IncrVerif.Props.C17History", "IncrVerif.Props.C02Full"], [("bind", 0.5), ("general", 0.3), ("static", 0.2)], ["api", "ev", "read"],
                 GEN + "both build profiles (in debug builds a glitch usually trips a debug assertion first; release builds show the "
                 "stale arguments); non-trivial = distinct history in which node functions ran",
                 builds=("debug", "release"), nq=200),
@@ -42,7 +42,7 @@ PROPS = {
     "C04": spec(["IncrVerif.Props.C04", "IncrVerif.Props.C01History", "IncrVerif.Props.C03Nested", "IncrVerif.Props.C17History", "IncrVerif.Props.C06History", "IncrVerif.Props.C04Full"], [("general", 0.3), ("bind", 0.3), ("expert", 0.2), ("subs", 0.1), ("varw", 0.1)],
                 ["api"], GEN + "both build profiles (debug assertions on and off); non-trivial = distinct history in which node functions ran",
                 builds=("debug", "release"), nq=200),
-    "C05": spec(["IncrVerif.Props.C05", "IncrVerif.Props.C01History"], [("general", 0.3), ("bind", 0.3), ("expert", 0.25), ("life", 0.15)], ["api", "ev", "stats"],
+    "C05": spec(["IncrVerif.Props.C05", "IncrVerif.Props.C01History", "IncrVerif.Props.C05Release"], [("general", 0.3), ("bind", 0.3), ("expert", 0.25), ("life", 0.15)], ["api", "ev", "stats"],
                 GEN + "non-trivial = distinct history in which node functions ran"),
     "C07": spec(["IncrVerif.Props.C07", "IncrVerif.Props.C10History"], [("varw", 0.35), ("general", 0.3), ("life", 0.15), ("expert", 0.2)], ["api", "read", "ev"],
                 GEN + "reads of every observer after every action, and from inside node functions and handlers (readobs effects); "
